@@ -1406,7 +1406,11 @@ class Scheduler:
             def callback(result):
                 # Copy the evaluation bookkeeping from the completed expression `expr2`
                 # to our detected duplicate expression `expr`.
-                if isinstance(expr2, TaskExpression):
+                if isinstance(expr2, SchedulerExpression):
+                    # Scheduler expressions have no call_hash of their own: their dataflow is
+                    # the _upstreams they were evaluated with (or derived to, see catch).
+                    expr._upstreams = expr2._upstreams
+                elif isinstance(expr2, TaskExpression):
                     expr.call_hash = expr2.call_hash  # ty: ignore[unresolved-attribute]
                 elif isinstance(expr2, SimpleExpression):
                     expr._upstreams = expr2._upstreams
@@ -2657,6 +2661,10 @@ def catch(
             allowed_cache_results={CacheResult.SINGLE},
         )
         if cache_type != CacheResult.MISS:
+            # The cached copy is what gets evaluated (and carries the call hashes), so it is
+            # the upstream of this catch expression, not the expression in our arguments.
+            derive_expression(cached_expr, sexpr)
+            expr = cached_expr
             return scheduler.evaluate(cached_expr, parent_job=parent_job).catch(promise_catch)
 
     return scheduler.evaluate(expr, parent_job=parent_job).then(on_success, promise_catch)
@@ -2728,10 +2736,13 @@ def catch_all(
                 def do_recover(error_class_recover):
                     error_class, recover = error_class_recover
                     if all(isinstance(error, error_class) for error in errors):
-                        return scheduler.evaluate(
-                            recover(map_nested_value(resolve_term, pending_expr)),
-                            parent_job=parent_job,
+                        # Record dataflow: exprs --> results and errors --> recover(...) --> sexpr
+                        values_expr = derive_expression(
+                            exprs, map_nested_value(resolve_term, pending_expr)
                         )
+                        recover_expr = recover(values_expr)
+                        derive_expression(recover_expr, sexpr)
+                        return scheduler.evaluate(recover_expr, parent_job=parent_job)
                     else:
                         # By default, just reraise first non-matching error.
                         raise next(error for error in errors if not isinstance(error, error_class))
